@@ -136,6 +136,9 @@ impl Monitor for Mon {
                 stats.states.push(s.config_hash());
             }
         }
+        if let Some((kind, detail, msg)) = take_stack_alert(w, &["tx-config", "tx-power", "tx-unrequested"]) {
+            return Some(Violation::new(&format!("C09.chip-{kind}"), &detail, format!("full stack (real lora-phy on a simulated chip): {msg}")));
+        }
         check_tx(w, rec, stats)
     }
 
@@ -245,6 +248,7 @@ impl C09 {
     pub fn own_generate(&self, seed: u64, run: u64, tier: Tier, _avoid: &BTreeSet<String>) -> MacCase {
         let mut r = Rng::new(run_seed(seed, "C09", run));
         let mut cfg = gen_cfg(&mut r, &CfgProfile { frontends: ALL_FRONTENDS, otaa_pct: 50, boundary_counters_pct: 0, join_bias_pct: 60 });
+        maybe_phy(&mut r, &mut cfg, 1, 6);
         let mut ops = Vec::new();
         let ups = rr::uplink_drs(cfg.region);
         let wild_pct = *r.pick(&[0u64, 20, 50]);
